@@ -30,12 +30,13 @@ class RefRow(dict):
 
 
 class RefFile:
-    def __init__(self, doc: Dict[str, Any]) -> None:
+    def __init__(self, doc: Dict[str, Any], rounding: bool = True) -> None:
+        """rounding=False: the session ran with HTA_DISABLE_NS_ROUNDING=1 (timestamps stay fractional)."""
         events = doc.get("traceEvents", [])
         # the time column is "fractional" when any entry carries a non-integer JSON number as
         # ts or no ts at all (the column then is a float column); integral values are unchanged
         # by the rounding, so only genuinely fractional ones matter.
-        self.frac = any((isinstance(e.get("ts"), float) or "ts" not in e or e.get("ts") is None) for e in events)
+        self.frac = rounding and any((isinstance(e.get("ts"), float) or "ts" not in e or e.get("ts") is None) for e in events)
         self.rows: Dict[int, Dict[str, Any]] = {}
         for i, e in enumerate(events):
             if _is_missing(e.get("dur")) or _is_missing(e.get("cat")):
